@@ -172,6 +172,18 @@ CLAIMED = {
         "Trusted: Coq kernel; numpy conversion of same-typed values exact (exercised). Known finding: the scalar empty string "
         "clears the values.",
         "DESIGN.md section 5 C10", TECH),
+    "C16": (
+        "Coq theorems over the table model (ordered named typed columns, rows of opaque cells): write_cell changes exactly the "
+        "addressed cell; write_rows leaves unaddressed rows alone and stores the j-th row at index[j]; append_rows is old ++ new; "
+        "append_column adds a last column with the given values and keeps every existing cell; write_column (index 0 included) "
+        "sets that column and no other; each is refused exactly on wrong lengths / indices / existing names, a refused operation "
+        "leaves the table as it was; every reachable table is well-formed; by-name addressing is by-position addressing. Tie: "
+        "histories over schemas of 1-6 columns of 6 element types, four creation variants, all write/append calls with valid and "
+        "invalid arguments, reopen, re-creation under the same name; after every step the whole table, names, types, counts, "
+        "identity and four read paths are compared with the model; trace predicates name the failing step.",
+        "Trusted: Coq kernel; cells are opaque (numpy casting between types not modelled; only values of the column's own type "
+        "are written); h5py compound datasets exercised, not modelled; units / column definitions are not part of the model.",
+        "DESIGN.md section 5 C16", TECH),
 }
 
 PENDING_REASON = ("check not built yet in this revision (work in progress: the property is meant to be decided by Coq "
